@@ -13,6 +13,8 @@ CONSTANTS
   MaxTx = 8
   SupplyCap = 12
   DataVals = {7, 8}
+  ConsArgs <- ConsNone
+  ConArgs <- ConsNone
   InitLedgers <- InitFNU
   FailOdds = 4
   EndOdds = 3
